@@ -137,10 +137,40 @@ def _enum(full):
     return gen
 
 
+def _enum_skip_reasons():
+    """Every shape of skip reason x the stage that skips x every flavour, with and without something already
+    recorded on the test (a failed expectation, an expected failure) when the skip arrives."""
+    ids = itertools.count(1)
+    for kind in ("skip", "skip_empty", "skip_noargs", "skip_int", "xf_skip"):
+        for stage in ("setUp_pre", "setUp_post", "body", "tearDown_post", "cleanup"):
+            for before in (None, "expect", "xfail", "detail-expect"):
+                for fl in R.FLAVOURS:
+                    prog = {"decor": "none", "setUp_pre": [], "setUp_post": [], "body": [], "tearDown_pre": [], "tearDown_post": [],
+                            "handlers": [], "handlers_when": "init", "cells": 0}
+                    raise_ = {"a": "raise", "i": next(ids), "kind": kind}
+                    pre = []
+                    if before in ("expect", "detail-expect"):
+                        pre = [{"a": "expect", "i": next(ids), "ok": False, "dnames": ["log"] if before == "detail-expect" else []}]
+                    if stage == "cleanup":
+                        prog["body"] = [{"a": "cleanup", "i": next(ids), "args": False, "body": pre + [raise_]}]
+                        if before == "xfail":
+                            prog["body"].append({"a": "raise", "i": next(ids), "kind": "xfail"})
+                    else:
+                        if before == "xfail":
+                            if stage != "tearDown_post":
+                                continue
+                            prog["body"] = [{"a": "raise", "i": next(ids), "kind": "xfail"}]
+                        prog[stage] = pre + [raise_]
+                    yield {"prog": prog, "flavour": fl}
+
+
 def subchecks(tier):
     q = tier == "quick"
     return [
-        Sub("random_programs", run_case, CASE, 2500 if q else 60000),
+        Sub("random_programs", run_case, CASE, 4000 if q else 60000),
+        Sub("skip_reason_grid", run_case, enum=_enum_skip_reasons, enum_complete=True,
+            note="5 skip shapes (text, empty, no argument, non-text, raised inside expectFailure) x 5 stages x "
+                 "{nothing, failed expectThat, expectThat with details, expected failure} recorded before x 7 flavours"),
         Sub("fault_grid", run_case, enum=_enum(not q), enum_complete=True,
             note=("10 behaviours ^ 5 stages x 7 flavours (+ expectThat variant)" if not q else "5 behaviours ^ 5 stages x 3 flavours")),
     ]
